@@ -31,9 +31,10 @@ import (
 //     cfg    = x (missing) | file          dirs = dir{/dir} | -      dir = file{,file} | e (empty dir)
 //     watched = file{,file} | -            file = hexname:hexraw:plain
 //     plain  = "=" (not gzipped) | ! (broken gzip stream) | hextext (what gunzip gives; re-checked here)
+//              | @ (a dangling symlink, raw "-": os.Stat fails on it; config and watched directories only)
 //     env    = hexname=hexvalue{,…} | -    script = a word of 1/0: the reload endpoint's answers, in order; the
 //              context of the apply is cancelled when the last scripted answer is a failure
-//     answer = res;outs      res = ok<requests> | err:missing | err:gzip | err:env:<hexname>
+//     answer = res;outs      res = ok<requests> | err:missing | err:gzip | err:stat | err:env:<hexname>
 //     outs   = path=hexcontent{,…} sorted by path | -     path = out | <dir index>/<hexname>
 //
 // Oracle (independent of the model; own bookkeeping of "content at the last successful reload"):
@@ -92,9 +93,10 @@ func c47Server() *c47Endpoint {
 // ---------------------------------------------------------------- op parsing
 
 type c47File struct {
-	name  string
-	raw   []byte
-	plain *string // nil: broken gzip
+	name     string
+	raw      []byte
+	plain    *string // nil: broken gzip
+	dangling bool    // a symlink whose target does not exist
 }
 
 func gunzipAll(b []byte) (string, bool) {
@@ -120,6 +122,10 @@ func c47ParseFile(s string) (c47File, bool) {
 		return c47File{}, false
 	}
 	f := c47File{name: string(n), raw: raw}
+	if p[2] == "@" {
+		f.dangling = true
+		return f, len(raw) == 0
+	}
 	isGz := len(raw) >= 3 && raw[0] == 0x1f && raw[1] == 0x8b && raw[2] == 0x08
 	switch p[2] {
 	case "=":
@@ -433,7 +439,7 @@ func c47ExecRun(c *hlib.Ctx, tok []string) string {
 		var st c47Step
 		if p[0] != "x" {
 			f, ok := c47ParseFile(p[0])
-			if !ok {
+			if !ok || f.dangling {
 				return "bad-op"
 			}
 			st.cfg = &f
@@ -532,7 +538,13 @@ func c47ExecRun(c *hlib.Ctx, tok []string) string {
 		want := map[string]bool{}
 		for _, f := range files {
 			want[f.name] = true
-			must(os.WriteFile(filepath.Join(dir, f.name), f.raw, 0o644))
+			path := filepath.Join(dir, f.name)
+			os.Remove(path)
+			if f.dangling {
+				must(os.Symlink(filepath.Join(dir, "no-such-target"), path))
+				continue
+			}
+			must(os.WriteFile(path, f.raw, 0o644))
 		}
 		es, err := os.ReadDir(dir)
 		must(err)
@@ -576,6 +588,8 @@ func c47ExecRun(c *hlib.Ctx, tok []string) string {
 			switch {
 			case strings.Contains(msg, "hash file"):
 				res = "err:missing"
+			case strings.Contains(msg, "stat file") || strings.Contains(msg, "build hash"):
+				res = "err:stat"
 			case strings.Contains(msg, "gzip") || strings.Contains(msg, "compressed"):
 				res = "err:gzip"
 			case strings.Contains(msg, "unset environment variable"):
@@ -743,6 +757,85 @@ func genC47(c *hlib.Ctx) {
 		}
 		out := c.Do(fmt.Sprintf("rl.expand %d %s %s", r.Intn(2), hlib.Join(env, ","), hlib.HexS(sb.String())), true)
 		c.Count("expand:" + strings.Fields(out)[0])
+	}
+	// ---- directed histories: 2-3 config directories (+ watched directory); a pass that fails in a LATER
+	// directory (or in the watched directory) after an EARLIER directory changed, then the failing
+	// directory returns to exactly its last-reloaded content: the earlier edit has to be reloaded
+	n = c.N(150, 2500)
+	for i := 0; i < n; i++ {
+		nDirs := r.Range(2, 3)
+		hasWatched := r.Chance(1, 2)
+		hasCfg := r.Chance(1, 2)
+		tol := "0"
+		conf := fmt.Sprintf("%s.%s.%s.0.%d.%s", map[bool]string{true: "1", false: "0"}[hasCfg], map[bool]string{true: "1", false: "0"}[hasCfg && r.Bool()], tol, nDirs, map[bool]string{true: "1", false: "0"}[hasWatched])
+		good := func(nm string, k int) string { return hlib.HexS(nm) + ":" + hlib.HexS(fmt.Sprintf("content %s v%d", nm, k)) + ":=" }
+		bad := func(nm string) string {
+			switch r.Intn(3) {
+			case 0:
+				c.Count("directed:fail-unset-variable")
+				return hlib.HexS(nm) + ":" + hlib.HexS("x $(VERIF_NEVER_SET)") + ":="
+			case 1:
+				c.Count("directed:fail-broken-gzip")
+				g := c47Gzip("some text that is long enough to be cut")
+				return hlib.HexS(nm) + ":" + hlib.Hex(g[:len(g)-6]) + ":!"
+			}
+			c.Count("directed:fail-dangling-symlink")
+			return hlib.HexS(nm) + ":-:@"
+		}
+		ver := make([]int, nDirs) // version of file "a" per directory
+		wver := 0
+		cfgver := 0
+		step := func(failDir int, failWatched bool, script string) string {
+			cfgTok := "x"
+			if hasCfg {
+				cfgTok = good("cfg", cfgver)
+			}
+			var ds []string
+			for d := 0; d < nDirs; d++ {
+				fs := []string{good("a", ver[d])}
+				if d == failDir {
+					fs = append(fs, bad("zfail"))
+				}
+				ds = append(ds, strings.Join(fs, ","))
+			}
+			wTok := "-"
+			if hasWatched {
+				fs := []string{good("r", wver)}
+				if failWatched {
+					c.Count("directed:fail-watched-dangling")
+					fs = append(fs, hlib.HexS("zfail")+":-:@")
+				}
+				wTok = strings.Join(fs, ",")
+			}
+			return strings.Join([]string{cfgTok, strings.Join(ds, "/"), wTok, "-", script}, "~")
+		}
+		var steps []string
+		steps = append(steps, step(-1, false, "1")) // everything reloaded
+		rounds := r.Range(1, 3)
+		for k := 0; k < rounds; k++ {
+			// an earlier directory (or the config file) changes while a later one fails
+			if hasWatched && r.Chance(1, 3) {
+				ver[r.Intn(nDirs)]++
+				steps = append(steps, step(-1, true, "1"))
+			} else {
+				j := r.Range(1, nDirs-1)
+				ch := r.Intn(j)
+				ver[ch]++
+				if hasCfg && r.Chance(1, 3) {
+					cfgver++
+				}
+				steps = append(steps, step(j, false, "1"))
+				if r.Chance(1, 3) {
+					steps = append(steps, step(j, false, "1")) // still failing
+				}
+			}
+			// the failing directory is back to its last-reloaded content: the edit must be reloaded now
+			steps = append(steps, step(-1, false, r.Pick([]string{"1", "01", "0"})))
+			steps = append(steps, step(-1, false, "1"))
+			steps = append(steps, step(-1, false, "1")) // and then nothing more
+		}
+		c.Do("rl.run "+conf+" "+strings.Join(steps, "|"), true)
+		c.Count("directed:histories")
 	}
 	// ---- histories of apply
 	n = c.N(250, 3000)
